@@ -3,12 +3,13 @@
 //! disabled and enabled on the real implementation.  Every observation is shipped to Coq:
 //!   spec  : ids == QuerySem.eval over the model corpus
 //!   tie   : ids/counts == Compose.collect_model / count_model over the segment layout read back
-//!   known : when the implementation misses the spec inside a known class (F31, F32): classifier
+//!   known : when the implementation misses the spec inside the known class F32: classifier
+//! (F31 -- single-clause boolean ignoring the minimum -- is fixed; its witnesses stay as regression cases)
 use std::collections::{BTreeMap, BTreeSet};
 use std::ops::Bound;
 
 use serde_json::json;
-use tantivy::collector::{Count, DocSetCollector, TopDocs};
+use tantivy::collector::{Count, DocSetCollector, FilterCollector, TopDocs};
 use tantivy::indexer::NoMergePolicy;
 use tantivy::query::{
     AllQuery, BooleanQuery, BoostQuery, ConstScoreQuery, DisjunctionMaxQuery, EmptyQuery, EnableScoring, ExistsQuery,
@@ -522,7 +523,8 @@ impl<'a> QGen<'a> {
 // ------------------------------------------------------------------------------------------ observations
 #[derive(Debug, Clone, PartialEq)]
 struct Obs { count: Result<u64, String>, qcount: Result<u64, String>, ids_ns: Result<Vec<u64>, String>, ids_ns_scw: Result<Vec<u64>, String>,
-             ids_top: Result<Vec<u64>, String>, ids_multi: Result<(Vec<u64>, Vec<u64>), String> }
+             ids_top: Result<Vec<u64>, String>, ids_multi: Result<(Vec<u64>, Vec<u64>), String>,
+             ids_filter: Result<Vec<u64>, String> }
 
 fn uid_of(searcher: &Searcher, cols: &[tantivy::columnar::Column<u64>], a: DocAddress) -> u64 {
     let _ = searcher;
@@ -546,7 +548,10 @@ fn observe(b: &Built, q: &dyn Query, total: usize) -> Obs {
     let ids_top = flat(guarded(|| s.search(q, &top))).map(|v| to_ids(v.into_iter().map(|x| x.1).collect()));
     let top2 = TopDocs::with_limit(total + 5).order_by_score();
     let ids_multi = flat(guarded(|| s.search(q, &(DocSetCollector, top2)))).map(|(set, v)| (to_ids(set.into_iter().collect()), to_ids(v.into_iter().map(|x| x.1).collect())));
-    Obs { count, qcount, ids_ns, ids_ns_scw, ids_top, ids_multi }
+    // FilterCollector over the unique-id fast field (keeps ids not divisible by 3)
+    let fc = FilterCollector::new("id".to_string(), |v: u64| v % 3 != 0, DocSetCollector);
+    let ids_filter = flat(guarded(|| s.search(q, &fc))).map(|set| to_ids(set.into_iter().collect()));
+    Obs { count, qcount, ids_ns, ids_ns_scw, ids_top, ids_multi, ids_filter }
 }
 
 fn make_vocab(rng: &mut Rng, n: usize) -> Vec<String> {
@@ -640,6 +645,13 @@ fn main() {
         qs.push(Q::Bool(1, vec![(Occur::Must, Q::Term { f: 0, t: 3, freqs: false })]));
         qs.push(Q::Bool(0, vec![(Occur::Must, Q::Bool(3, vec![(Occur::Should, Q::Term { f: 0, t: 0, freqs: true })])), (Occur::Must, Q::Term { f: 0, t: 3, freqs: true })]));
         qs.push(Q::Phrase { f: 0, ts: vec![(0, 0), (1, 3), (2, 4)], slop: 1 });
+        // regression (F131 of C13, fixed): `+a +((x y) z)` -- a union nested in a union under an intersection
+        qs.push(Q::Bool(0, vec![(Occur::Must, Q::Term { f: 0, t: 0, freqs: true }),
+                                (Occur::Must, Q::Bool(0, vec![(Occur::Should, Q::Bool(0, vec![(Occur::Should, Q::Term { f: 0, t: 3, freqs: true }), (Occur::Should, Q::Term { f: 0, t: 4, freqs: true })])),
+                                                              (Occur::Should, Q::Term { f: 0, t: 2, freqs: true })]))]));
+        qs.push(Q::Bool(0, vec![(Occur::Must, Q::Term { f: 0, t: 3, freqs: false }),
+                                (Occur::Must, Q::Bool(0, vec![(Occur::Should, Q::Bool(0, vec![(Occur::Should, Q::Term { f: 0, t: 5, freqs: true }), (Occur::Should, Q::Term { f: 1, t: 0, freqs: true })])),
+                                                              (Occur::Should, Q::Term { f: 0, t: 4, freqs: true })]))]));
         qs.push(Q::Bool(0, vec![(Occur::Should, Q::Term { f: 0, t: 3, freqs: true }), (Occur::Should, Q::Term { f: 0, t: 4, freqs: true })]));
         qs.push(Q::Bool(0, vec![(Occur::Must, Q::Term { f: 0, t: 3, freqs: true }), (Occur::Must, Q::Term { f: 0, t: 4, freqs: true }), (Occur::MustNot, Q::Term { f: 0, t: 2, freqs: true })]));
         qs.push(Q::Bool(0, vec![(Occur::MustNot, Q::Term { f: 0, t: 2, freqs: true }), (Occur::MustNot, Q::Empty)]));
@@ -681,12 +693,13 @@ fn main() {
         while qs.len() < nq { let depth = *qg.rng.pick(&[1usize, 2, 2, 3]); qs.push(qg.tree(depth)); }
         let acc: Vec<Vec<usize>> = qg.autos.iter().map(|a| a.1.clone()).collect();
         for q in qs {
-            if q.has_f31() || q.has_f32() { continue; }
+            if q.has_f32() { continue; }
             let tq = to_query(&q, &built.fields, &vocab);
             let obs = observe(&built, tq.as_ref(), c.docs.len());
             let expect: Vec<u64> = c.docs.iter().filter(|d| d.alive && matches(d, &q, &acc)).map(|d| d.uid).collect();
             let ok = obs.count == Ok(expect.len() as u64) && obs.qcount == Ok(expect.len() as u64) && obs.ids_ns.as_ref() == Ok(&expect)
-                && obs.ids_ns_scw.as_ref() == Ok(&expect) && obs.ids_top.as_ref() == Ok(&expect) && obs.ids_multi == Ok((expect.clone(), expect.clone()));
+                && obs.ids_ns_scw.as_ref() == Ok(&expect) && obs.ids_top.as_ref() == Ok(&expect) && obs.ids_multi == Ok((expect.clone(), expect.clone()))
+                && obs.ids_filter == Ok(expect.iter().copied().filter(|u| u % 3 != 0).collect());
             bulk.push((ok, json!({"what": "big corpus: every collector returns the ids of the naive evaluator", "corpus": c.name, "query": q.coq(),
                                   "expected_n": expect.len(), "count": format!("{:?}", obs.count), "docset_n": obs.ids_ns.as_ref().map(|v| v.len()).ok()})));
             *stats.entry("big_corpus_queries".into()).or_default() += 1;
@@ -740,26 +753,28 @@ fn main() {
         let live = c.docs.iter().filter(|d| d.alive).count();
         let nontrivial = q.depth() >= 2 && kinds.len() >= 2 && !r.expect.is_empty() && r.expect.len() < live;
         out.count(&format!("depth_{}", q.depth()), 1);
+        if q.has_f31() { out.count("single_clause_minimum_regression_queries", 1); }
         let desc = |what: &str| json!({"what": what, "corpus": c.name, "docs": c.docs.len(), "segments": c.chunks, "query": qc, "expected_ids_n": r.expect.len(), "obs": format!("{:?}", r.obs).chars().take(600).collect::<String>()});
 
         let o = &r.obs;
         // all collectors agree with each other (decided here) ...
         let n_ok = |x: &Result<u64, String>| x.as_ref().ok().copied();
         let agree = match (&o.ids_ns, &o.ids_ns_scw, &o.ids_top, &o.ids_multi) {
-            (Ok(a), Ok(b), Ok(t), Ok((m1, m2))) => a == b && a == t && a == m1 && a == m2 && n_ok(&o.count) == Some(a.len() as u64) && n_ok(&o.qcount) == Some(a.len() as u64),
+            (Ok(a), Ok(b), Ok(t), Ok((m1, m2))) => a == b && a == t && a == m1 && a == m2 && n_ok(&o.count) == Some(a.len() as u64) && n_ok(&o.qcount) == Some(a.len() as u64)
+                && o.ids_filter.as_ref().ok() == Some(&a.iter().copied().filter(|u| u % 3 != 0).collect::<Vec<u64>>()),
             _ => false,
         };
         let meets_spec = agree && o.ids_ns.as_ref() == Ok(&r.expect);
-        let in_known = q.has_f31() || q.has_f32();
+        let in_known = q.has_f32();   // F31 is fixed in /repo: single-clause minimum queries are ordinary cases now
         let ids_or_empty = |x: &Result<Vec<u64>, String>| x.clone().unwrap_or_default();
         let tie_term = format!("check_tie c{ci}_acc c{ci}_segs ({qc}) {} {} {} {}", cf::ns(&ids_or_empty(&o.ids_ns)), cf::ns(&ids_or_empty(&o.ids_top)),
                                o.count.clone().unwrap_or(u64::MAX), o.qcount.clone().unwrap_or(u64::MAX));
-        let errors = [o.count.is_err(), o.qcount.is_err(), o.ids_ns.is_err(), o.ids_ns_scw.is_err(), o.ids_top.is_err(), o.ids_multi.is_err()].iter().any(|e| *e);
+        let errors = [o.count.is_err(), o.qcount.is_err(), o.ids_ns.is_err(), o.ids_ns_scw.is_err(), o.ids_top.is_err(), o.ids_multi.is_err(), o.ids_filter.is_err()].iter().any(|e| *e);
 
         if meets_spec || !in_known {
             // spec: the ids are those of `eval` (Coq decides); and all collectors agree
             out.coq_case("spec", format!("check_spec c{ci}_acc c{ci}_corpus ({qc}) {}", cf::ns(&ids_or_empty(&o.ids_ns))), desc("DocSetCollector ids = eval"), nontrivial);
-            out.spec_checked(agree && !errors, desc("Count, Query::count, DocSetCollector (scoring off/on), TopDocs, (DocSetCollector, TopDocs) agree"));
+            out.spec_checked(agree && !errors, desc("Count, Query::count, DocSetCollector (scoring off/on), TopDocs, (DocSetCollector, TopDocs), FilterCollector agree"));
             if !in_known {
                 out.coq_case("tie", tie_term, desc("collect_model / count_model = implementation"), nontrivial);
             }
@@ -767,8 +782,8 @@ fn main() {
         } else {
             // the implementation misses the spec on an input of a known class: the classifier requires the
             // class AND that the faithful model predicts exactly the observed behaviour
-            let (kid, cls) = if q.has_f31() && !q.has_f32() { ("known:F31", "has_f31") } else { ("known:F32", "has_f32") };
-            let pred = if errors { "false".to_string() } else if kid == "known:F31" { format!("{} && list_eqb N.eqb (model_ids c{ci}_acc c{ci}_segs true ({qc})) {}", tie_term, cf::ns(&o.ids_multi.as_ref().map(|m| m.0.clone()).unwrap_or_default())) } else {
+            let (kid, cls) = ("known:F32", "has_f32");
+            let pred = if errors { "false".to_string() } else {
                 format!("check_f32 c{ci}_acc c{ci}_segs c{ci}_corpus ({qc}) {} {} {} {}", cf::ns(&ids_or_empty(&o.ids_ns)), cf::ns(&ids_or_empty(&o.ids_top)), o.count.clone().unwrap_or(u64::MAX), o.qcount.clone().unwrap_or(u64::MAX))
             };
             out.coq_case(kid, format!("{cls} ({qc}) && ({pred})"), desc("known class: implementation deviates from eval"), false);
